@@ -763,7 +763,8 @@ func regPanicSite(key, family string, n int, flags int, exec func(t *T)) {
 	s := &site{Key: key, Family: family, N: n, Monad: mTry, WantVal: -1, NCustom: len(behs)}
 	s.Custom = func(t *T, c int) {
 		t.beh = behs[c]
-		t.mask = uint64(c)
+		t.mask = uint64(t.beh)
+		t.nonTrivial = t.beh != behValue
 		t.custNote = behNames[t.beh]
 		t.exec = &inlineExec{}
 		escaped := func() (p any) {
